@@ -231,6 +231,58 @@ func treeCase(r *vh.Run, rng *vh.RNG, name string) {
 			w.Stats[fmt.Sprintf("upd-confirmed-on-the-way:%d-of-%d", min(nc, 3), min(len(set), 4))]++
 		}
 	}
+	// members of one set confirmed in DIFFERENT blocks of the path, in an order other than the set's:
+	// 3-4 independent transactions are pooled, then two or three blocks each confirm one chosen member
+	for k := 0; k < 1 && !w.Panicked && w.V2Allowed(); k++ {
+		from := w.TipID()
+		cs := w.Node.CM.TipState()
+		free := w.FreeCoins()
+		n := 3 + rng.Intn(2)
+		if len(free) < n {
+			break
+		}
+		var set []types.V2Transaction
+		for i := 0; i < n; i++ {
+			set = append(set, w.SpendV2(cs, free[i:i+1], 1, poolrig.Fee(50+i+7*k), 0))
+		}
+		if g.AddV2(from, copySet(set), nil, "fresh", -1, false) != "ok" {
+			continue
+		}
+		order := rng.Perm(n)
+		confirmed := 0
+		for _, idx := range order[:2+rng.Intn(2)] {
+			// the member as the pool holds it now (proofs as of the current tip)
+			var cur *types.V2Transaction
+			for i := range w.LastV2 {
+				if w.LastV2[i].ID() == set[idx].ID() {
+					c := w.LastV2[i].DeepCopy()
+					cur = &c
+				}
+			}
+			if cur == nil {
+				break
+			}
+			id, err := w.Tree.MineWith(rng, w.TipID(), nil, []types.V2Transaction{*cur}, 1+rng.Intn(2))
+			if err != nil {
+				w.C.Oracle("pool-transaction-not-minable", "a block carrying one pooled transaction is invalid on a linear twin: %v", err)
+				break
+			}
+			w.Submit(id)
+			w.Refresh()
+			confirmed++
+		}
+		to := w.TipID()
+		if to == from || confirmed < 2 {
+			continue
+		}
+		out, ok := w.Update(from, to, copySet(set), "confirmed-in-several-blocks")
+		if !ok {
+			w.C.Oracle("updatev2transactionset-valid-forward-rejected", "UpdateV2TransactionSet %d -> %d rejected a set valid at %d of which %d members were confirmed in %d different blocks on the way", from, to, from, confirmed, confirmed)
+		} else {
+			checkUpdate(w, from, to, set, out, "confirmed-in-several-blocks")
+			w.Stats[fmt.Sprintf("upd-confirmed-in-blocks:%d-of-%d", confirmed, n)]++
+		}
+	}
 	var applied []int
 	for id := range w.Tree.Blocks {
 		if w.Applied[id] && id != 0 {
